@@ -8,7 +8,7 @@ FUNCTIONS = ["miros.event.Event.__init__", "miros.event.Event.dumps", "miros.eve
              "json.dumps/json.loads (real, on a pool of concrete names and payloads: family h_json)"]
 ASSUMPTIONS = [
   "a fresh signal registry per path (the global one would let paths contaminate each other); variants: name new / already registered / a built-in",
-  "symbolic harnesses: signal name drawn by a symbolic index from a pool of 12 names (empty, unicode, quotes, backslash, line separators, a built-in name, 'null', '0'): miros' code uses the name only as a dictionary key, and CrossHair realises symbolic str keys of the real OrderedDict registry value by value (measured: not confirmed in 600 s); payload = symbolic value of the harness's type (None, bool, int, "
+  "symbolic harnesses: signal name drawn by a symbolic index from a pool of 16 names (empty, unicode, quotes, backslash, line separators, a built-in name, 'null', '0'): miros' code uses the name only as a dictionary key, and CrossHair realises symbolic str keys of the real OrderedDict registry value by value (measured: not confirmed in 600 s); payload = symbolic value of the harness's type (None, bool, int, "
   "str <= 2, List[int] <= 2, Dict[key from a pool of 4, symbolic int] <= 1, List[List[int]]); miros.event.json is replaced by a codec stub that satisfies only the documented "
   "contract loads(dumps(x)) == x (an opaque token holding a deep copy), so name and payload stay symbolic through miros' own code "
   "(with the real json module CrossHair did not finish within 600 s per condition - measured)",
@@ -189,7 +189,8 @@ def case_float(k):
   return case_generic("F", [0.5, -1e300, 3.141592653589793][k], 1)
 
 
-NAMES = ["", "A", "\u00e9", "\"", "\\", "\n", "a b", "ENTRY_SIGNAL", "\u2028", "\U0001F4A5", "null", "0"]
+NAMES = ["", "A", "\u00e9", "\"", "\\", "\n", "a b", "ENTRY_SIGNAL", "\u2028", "\U0001F4A5", "null", "0",
+         "update", "keys", "highest_inner_signal", "signal_name"]       # names spelled like attributes of the registry object / of the json record
 PAYLOADS = [None, True, False, 0, -1, 2 ** 70, "", "x\"y\\", "\u2028\n", [], [0], [[]], [None, False, 0, ""], {}, {"": 0}, {"k": [1, {"z": None}]},
             0.5, -1e300, 5e-324, 0.1 + 0.2]
 
